@@ -76,8 +76,7 @@ def oracle(ctx, case):
     if tag != "ok":
         return 0
     lines, soll = case["lines"], case["soll"]
-    rc, h, fc = case["cer"]
-    evalimpl.set_cer(rc=rc, hints=h, fc=fc, packages=dict(valcorr.PACKAGES))
+    valcorr.reset_cer(case)
     stat = {}
     for d, rv, *_ in rows:
         stat.setdefault(d, rv)
